@@ -93,16 +93,22 @@ def random_options(rng, kind, n):
                  ('temperature', round(10 ** rng.uniform(-1.3, 1.3), 4)), ('hard', True),
                  ('hard', False)]
         if kind != 'supernet':
-            pool += [('gumbel', False), ('disable_sampling', True), ('disable_sampling', False)]
+            pool += [('gumbel', False), ('gumbel', True), ('disable_sampling', True),
+                     ('disable_sampling', False)]
     return [rng.choice(pool) for _ in range(n)]
 
 
-def randomize_nas_params(nas, rng):
-    """move the architectural parameters away from their initial values (deterministically)"""
+def randomize_nas_params(nas, rng, prune=False):
+    """move the architectural parameters away from their initial values (deterministically);
+    prune=True (PIT): mask values uniform in [0, 1.2], so that a good share of the channels,
+    time-steps and dilation steps is actually pruned (below the 0.5 threshold)"""
     g = torch.Generator().manual_seed(rng.randrange(2 ** 31))
     with torch.no_grad():
         for p in nas.nas_parameters():
-            p.data.add_(torch.randn(p.shape, generator=g) * 0.4)
+            if prune:
+                p.data.copy_(torch.rand(p.shape, generator=g) * 1.2)
+            else:
+                p.data.add_(torch.randn(p.shape, generator=g) * 0.4)
 
 
 def train_steps(nas, xs, k, seed, lr=0.05):
